@@ -23,7 +23,7 @@ type refQ struct {
 func pqItems(q utils.PriorityQueue) string {
 	var ss []string
 	for _, it := range q.ToSlice() {
-		ss = append(ss, fmt.Sprintf("%d/%d", math.Float32bits(it.Priority()), it.Value().(int)))
+		ss = append(ss, fmt.Sprintf("%d/%d", cb(it.Priority()), it.Value().(int)))
 	}
 	return "items " + strings.Join(ss, " ")
 }
@@ -114,11 +114,11 @@ func runPQ(c *Ctx) {
 				for _, w := range f[2:] {
 					var x int
 					fmt.Sscan(w, &x)
-					p := float32(x) * 0.5
 					nextVal++
+					p := prio(x, nextVal)
 					items = append(items, utils.NewPriorityQueueItem(p, nextVal))
-					line += fmt.Sprintf(" %d %d", math.Float32bits(p), nextVal)
-					ref.bag[nextVal] = math.Float32bits(p)
+					line += fmt.Sprintf(" %d %d", cb(p), nextVal)
+					ref.bag[nextVal] = cb(p)
 				}
 				c.Op("%s", line)
 				if f[1] == "min" {
@@ -132,11 +132,11 @@ func runPQ(c *Ctx) {
 					c.Nontrivial("ctor-with-items")
 				}
 			case "push":
-				p := float32(pv) * 0.5
 				nextVal++
-				c.Op("push %d %d %d", qi, math.Float32bits(p), nextVal)
+				p := prio(pv, nextVal)
+				c.Op("push %d %d %d", qi, cb(p), nextVal)
 				qs[qi].Push(utils.NewPriorityQueueItem(p, nextVal))
-				refs[qi].bag[nextVal] = math.Float32bits(p)
+				refs[qi].bag[nextVal] = cb(p)
 				c.Res("ok")
 			case "pop", "peek":
 				c.Op("%s %d", f[0], qi)
@@ -166,7 +166,7 @@ func runPQ(c *Ctx) {
 				} else {
 					it = qs[qi].Peek()
 				}
-				pb, v := math.Float32bits(it.Priority()), it.Value().(int)
+				pb, v := cb(it.Priority()), it.Value().(int)
 				c.Res("item %d/%d", pb, v)
 				// oracle: the item is in the bag, with that priority, and is extremal
 				ref := refs[qi]
@@ -224,7 +224,7 @@ func runPQ(c *Ctx) {
 			for qs[qi].Len() > 0 {
 				c.Op("pop %d", qi)
 				it := qs[qi].Pop()
-				pb, v := math.Float32bits(it.Priority()), it.Value().(int)
+				pb, v := cb(it.Priority()), it.Value().(int)
 				c.Res("item %d/%d", pb, v)
 				if want, ok := ref.bag[v]; !ok || want != pb {
 					c.Violate("C19", "C19/pop-not-in-bag", "drain returned an item that is not in the bag", c.History())
@@ -283,4 +283,22 @@ func runPQ(c *Ctx) {
 	for h := 0; h < nh; h++ {
 		runOne("rand", nil, rng.Fork())
 	}
+}
+
+// prio: priorities are multiples of 0.5; every other zero is the *negative* zero: equal to 0, so a legal
+// non-negative priority (Push accepts it) that must order exactly like +0 although its bit pattern is
+// 0x80000000
+func prio(x, serial int) float32 {
+	if x == 0 && serial%2 == 0 {
+		return float32(math.Copysign(0, -1))
+	}
+	return float32(x) * 0.5
+}
+
+// cb: the bits of a priority with both zeros written as +0 (the model orders values, and -0 = +0)
+func cb(p float32) uint32 {
+	if p == 0 {
+		return 0
+	}
+	return math.Float32bits(p)
 }
